@@ -43,19 +43,10 @@ func (fr *Frame) callInvoke(x ssa.CallInstruction, com *ssa.CallCommon, st *Stat
 	return Val{}, nil
 }
 
-// callIfaceContract: assumed/proved contract of an interface method; clause
-// parameters are bound by name (`self` is the receiver).
+// callIfaceContract: assumed/proved contract of an interface method or
+// external function; clause parameters are bound by name (`self` is the receiver).
 func (fr *Frame) callIfaceContract(x ssa.CallInstruction, fullKey string, plen int, ct *Contract, sig *types.Signature, recv Term, args []Val, st *State) (Val, *State) {
-	vc := fr.vc
-	pos := x.Pos()
-	key := "iface:" + fullKey[plen:]
-	vc.callees[key] = true
-	if ct.Trusted != "" {
-		vc.assumptions["contract:"+key[6:]+" ("+ct.Trusted+")"] = true
-	}
-	vc.callCount++
-	k := vc.callCount
-	var results []Val
+	key := fullKey[plen:]
 	mk := func(results []Val) func(cp ClauseParam, old bool) Val {
 		return func(cp ClauseParam, old bool) Val {
 			if cp.Kind == "result" {
@@ -85,50 +76,7 @@ func (fr *Frame) callIfaceContract(x ssa.CallInstruction, fullKey string, plen i
 			return Val{}
 		}
 	}
-	for _, cl := range ct.Requires {
-		g := fr.evalClauseWith(cl, mk(nil), st, st)
-		vc.Oblige("call-pre", fmt.Sprintf("call%d.%s.%s", k, key[6:], cl.Label), pos, st, g, "precondition of "+key[6:]+": "+cl.Src)
-		st.Assume(g)
-	}
-	pre := st.Clone()
-	items := fr.modItems(ct, mk(nil), pre)
-	fr.havocItems(st, items, pos)
-	a := vc.allocTerm(st)
-	na := vc.Fresh("alloc", SInt)
-	st.Assume(Le(a, na))
-	vc.setGhost(st, "$alloc", na)
-	rs := sig.Results()
-	for i := 0; i < rs.Len(); i++ {
-		t := rs.At(i).Type()
-		r := vc.Fresh("r."+key[6:], vc.specialSort(t))
-		if wf := vc.wfValue(r, t, st); wf.S != "true" {
-			st.Assume(wf)
-		}
-		results = append(results, TV(r))
-	}
-	if !ct.NoPanic {
-		pb := vc.Fresh("panics", SBool)
-		ps := st.Clone()
-		ps.Assume(pb)
-		for _, cl := range ct.Signals {
-			ps.Assume(fr.evalClauseWith(cl, mk(nil), ps, pre))
-		}
-		pv := vc.Fresh("panicval", SIface)
-		ps.Assume(Not(Eq(App(SInt, "itag", pv), IntLit(0))))
-		fr.raise(ps, pv, pos, "panic in "+key[6:])
-		st.Assume(Not(pb))
-	}
-	for _, cl := range ct.Ensures {
-		st.Assume(fr.evalClauseWith(cl, mk(results), st, pre))
-	}
-	st.reach = vc.Define("r.call", st.reach)
-	switch len(results) {
-	case 0:
-		return Val{}, st
-	case 1:
-		return results[0], st
-	}
-	return Val{Tuple: results}, st
+	return fr.callByContract(fullKey, key, ct, sig.Results(), mk, st, x.Pos())
 }
 
 // asPtr encodes an argument as a Ptr for the trace.
